@@ -104,8 +104,8 @@ def tsc_case(run, tsc, rng, k):
         w = rng.uniform(0, 3, N).astype(wdt)
     coord = k % 3
     n1d = shape[coord]
-    off_cells = [0.0, 0.5, -0.5, 0.25, 0.0][(k // 2) % 5]
-    if exact and off_cells == 0.25:
+    off_cells = [0.0, 0.5, -0.5, 0.25, 0.0, -0.75, 0.875, -0.9][(k // 2) % 8]  # any sub-cell offset
+    if exact and off_cells not in (0.0, 0.5, -0.5, -0.75, 0.875):
         off_cells = 0.5
     offset = off_cells * box / shape[0] if shape[0] == shape[1] == shape[2] else 0.0
     if offset == 0.0:
